@@ -55,10 +55,8 @@ func main() {
 				exp, _ = strconv.Atoi(f[4:])
 			}
 		}
-		before := settle(0)
-		if before > runtime.NumGoroutine() {
-			before = runtime.NumGoroutine()
-		}
+		runtime.Gosched()
+		before := runtime.NumGoroutine()
 		traceReset()
 		res := hx.RunLuaCase(lc)
 		after := settle(before + exp)
